@@ -146,7 +146,7 @@ def run_requests(ctx, tag, gen):
         for i, rq in enumerate(plain_rq):
             la = got[i] if i < len(got) - (0 if rc3 == 0 else 1) else "ABORT rc=%d" % rc3
             nplain += 1
-            if not _plain_equal(la, plain_lb[i]):
+            if la != "NOHOOK" and not _plain_equal(la, plain_lb[i]):
                 ndis += 1
                 if len(dis) < 200:
                     dis.append({"request": rq, "impl": la[:600], "model": plain_lb[i][:600], "build": "no-debug-assertions"})
